@@ -181,6 +181,8 @@ def c05_params(budget):
         yield {'twin': twin, 'nkeys': 0, 'accepted': 'noauth', 'cb': False}
         yield {'twin': twin, 'nkeys': 2, 'accepted': 'badtoken', 'cb': False}
         yield {'twin': twin, 'nkeys': 2, 'accepted': 'reconnect-fail', 'cb': False}
+        for read_t, auth_t, delay in ((0.5, 3.0, 2.0), (0.5, None, 2.0), (0.5, 3.0, 4.0), (2.0, 0.5, 1.0), (1.0, 1.0, 0.5)):
+            yield {'twin': twin, 'nkeys': 1, 'accepted': 'pubkey-late', 'cb': True, 'read_t': read_t, 'auth_t': auth_t, 'delay': delay}
 
 
 class Key(object):
@@ -210,6 +212,28 @@ def c05_run(p):
     if acc == 'badtoken':
         orig = dev.send
         dev.send = lambda cmd, a0, a1, data=b'': orig(cmd, 7 if cmd == b'AUTH' else a0, a1, data)
+    if acc == 'pubkey-late':
+        # the user confirms the key `delay` seconds after it was offered: connect must wait up to the auth timeout (None = for ever), no longer
+        dev.auth['accept_pubkey'] = False
+        orig_handle = dev.handle
+
+        def handle(cmd, a0, a1, data):
+            orig_handle(cmd, a0, a1, data)
+            if cmd == b'AUTH' and a0 == adbd.AUTH_RSAPUBLICKEY:
+                def confirm():
+                    dev.connected = True
+                    dev.send(b'CNXN', adbd.VERSION, dev.maxdata, dev.banner)
+                dev.timers.append((h.clock.now + p['delay'], confirm))
+        dev.handle = handle
+        r = outcome(lambda: h.call('connect', rsa_keys=keys, transport_timeout_s=p['read_t'], read_timeout_s=p['read_t'], auth_timeout_s=p['auth_t'],
+                                   auth_callback=lambda d: calls.append(1)))
+        in_time = p['auth_t'] is None or p['delay'] <= p['auth_t']
+        if in_time and (r != ('ok', True) or not h.available):
+            out.append(fail(p, 'connect must wait up to the auth timeout for the public key to be accepted', True, (r, h.available)))
+        if not in_time and (r[0] != 'exc' or h.available):
+            out.append(fail(p, 'connect must give up after the auth timeout and leave the device unavailable', 'timeout error', (r, h.available)))
+        h.finish()
+        return out
     if acc == 'reconnect-fail':
         dev.auth = None
         r = outcome(lambda: h.call('connect', rsa_keys=keys, transport_timeout_s=0.2, read_timeout_s=0.5))
@@ -365,9 +389,42 @@ def c08_params(budget):
                     if budget == 'quick' and (dp * 7 + wp + size) % 3:
                         continue
                     yield {'twin': twin, 'size': size, 'dp': dp, 'wp': wp, 'cb': (dp + wp) % 3, 'dst': 'bytesio' if wp % 2 else 'file'}
+        # the local destination fails in the middle of the transfer: the stream is closed while device data is in flight
+        for fail_at in (1, 2):
+            yield {'twin': twin, 'kind': 'dest-write-fails', 'fail_at': fail_at}
+
+
+class FailingSink(BytesIO):
+    def __init__(self, fail_at):
+        BytesIO.__init__(self)
+        self.n = 0
+        self.fail_at = fail_at
+
+    def write(self, b):
+        self.n += 1
+        if self.n >= self.fail_at:
+            raise OSError(28, 'No space left on device (simulated)')
+        return BytesIO.write(self, b)
+
+
+def c08_write_fails(p):
+    out = []
+    content = bytes(range(256)) * 40
+    dev = adbd.Adbd(maxdata=4096, fs={b'/f': content}, stats={b'/f': (0o100644, len(content), 5)}, data_plan=[2000], wrte_plan=[2008], remote_base=0x90)
+    h = mk(p['twin'], dev)
+    r = outcome(lambda: h.call('pull', '/f', FailingSink(p['fail_at'])))
+    if r[:2] != ('exc', 'OSError'):
+        out.append(fail(p, 'the error of the local destination must surface from pull', 'OSError', r))
+    out += monitor_failures(p, h)
+    if dev.streams:
+        out.append(fail(p, 'the stream must be closed by exactly one host CLSE', 'no open stream', sorted(dev.streams)))
+    h.finish()
+    return out
 
 
 def c08_run(p):
+    if p.get('kind') == 'dest-write-fails':
+        return c08_write_fails(p)
     out = []
     rnd = random.Random(p['size'] + 1)
     content = bytes(rnd.getrandbits(8) for _ in range(min(p['size'], 5000))) * (1 + p['size'] // 5000)
@@ -413,14 +470,14 @@ def c08_run(p):
 # ---------------------------------------------------------------------------------------------------------------------
 def c09_params(budget):
     for twin in ('sync', 'async'):
-        for li in range(4):
+        for li in range(len(LISTINGS)):
             for wp in range(len(WRTE_PLANS)):
                 yield {'twin': twin, 'kind': 'list', 'li': li, 'wp': wp}
         for k in range(5):
             yield {'twin': twin, 'kind': 'stat', 'k': k, 'wp': k % len(WRTE_PLANS)}
 
 
-LISTINGS = [[], [(b'a', 0, 0, 0)], [(b'file one', 0o100644, 2 ** 32 - 1, 7), (b'\xff\x00\xfe', 2 ** 32 - 1, 0, 2 ** 31), (b'x' * 255, 1, 2, 3)],
+LISTINGS = [[], [(b'a', 0, 0, 0)], [(b'.', 0o40755, 4096, 1), (b'..', 0o40755, 4096, 2), (b'...', 1, 2, 3), (b' ', 4, 5, 6)], [(b'file one', 0o100644, 2 ** 32 - 1, 7), (b'\xff\x00\xfe', 2 ** 32 - 1, 0, 2 ** 31), (b'x' * 255, 1, 2, 3)],
             [(b'n%d' % i, i, i * 3, i * 5) for i in range(60)]]
 STATS = [(0, 0, 0), (2 ** 32 - 1, 2 ** 32 - 1, 2 ** 32 - 1), (0o100644, 12, 1600000000), (1, 2, 3), (3, 2, 1)]
 
@@ -501,6 +558,9 @@ def c11_params(budget):
                 for stall in ('raise', 'empty', 'chatter'):
                     yield {'twin': twin, 'tt': tt, 'rt': rt, 'total': total, 'point': point, 'stall': stall}
         yield {'twin': twin, 'tt': 0.5, 'rt': 1.0, 'total': None, 'point': 'sync', 'stall': 'raise'}
+        # the device never confirms the host's CLSE of a sync stream but keeps writing on that very stream
+        for op in ('stat', 'list'):
+            yield {'twin': twin, 'tt': 0.5, 'rt': 1.0, 'total': None, 'point': 'sync-close', 'stall': 'own-stream', 'op': op}
 
 
 def c11_run(p):
@@ -529,7 +589,22 @@ def c11_run(p):
     h.core.max_virtual = h.clock.now + 60 * (1 + bound)
     t0 = h.clock.now
     nseen = len(h.core.timeouts_seen)
-    if p['point'] == 'sync':
+    if p['point'] == 'sync-close':
+        dev.send = orig
+        dev.stats[b'/f'] = (1, 2, 3)
+        dev.dirs[b'/f'] = [(b'n', 1, 2, 3)]
+        ids = {}
+
+        def send2(cmd, a0, a1, data=b''):
+            if cmd == b'CLSE':
+                ids['pair'] = (a0, a1)
+                return                      # never confirm the close
+            orig(cmd, a0, a1, data)
+        dev.send = send2
+        dev.strict = False
+        h.core.chatter = lambda: adbd.frame(b'WRTE', ids['pair'][0], ids['pair'][1], b'still talking') if 'pair' in ids else b''
+        r = outcome(lambda: h.call(p['op'], '/f', transport_timeout_s=tt, read_timeout_s=rt))
+    elif p['point'] == 'sync':
         r = outcome(lambda: h.call('stat', '/f', transport_timeout_s=tt, read_timeout_s=rt))
     else:
         r = outcome(lambda: h.call('shell', 'x', transport_timeout_s=tt, read_timeout_s=rt, timeout_s=total, decode=False))
@@ -559,6 +634,8 @@ def do_op(h, op, tmpdir):
         return h.call(op, '/p')
     if op == 'pull':
         return h.call('pull', '/p', os.path.join(tmpdir, 'PULLED'))
+    if op == 'pull-deep':
+        return h.call('pull', '/p', os.path.join(tmpdir, 'new', 'sub', 'PULLED'))
     return h.call('push', BytesIO(b'abc'), '/p')
 
 
@@ -570,6 +647,9 @@ def c13_params(budget):
                 yield {'twin': twin, 'seq': seq, 'op': op}
         for op in ('list', 'stat', 'pull', 'push'):
             yield {'twin': twin, 'seq': ['ok'], 'op': op, 'empty_path': True}
+        for seq in ([], ['ok', 'close'], ['fail']):
+            yield {'twin': twin, 'seq': seq, 'op': 'pull-deep'}
+        yield {'twin': twin, 'seq': ['ok'], 'op': 'pull-deep', 'empty_path': True}
 
 
 def c13_run(p):
@@ -598,6 +678,8 @@ def c13_run(p):
         if p.get('empty_path'):
             if p['op'] == 'pull':
                 r = outcome(lambda: h.call('pull', '', os.path.join(tmp, 'PULLED')))
+            elif p['op'] == 'pull-deep':
+                r = outcome(lambda: h.call('pull', '', os.path.join(tmp, 'new', 'sub', 'PULLED')))
             elif p['op'] == 'push':
                 r = outcome(lambda: h.call('push', BytesIO(b'x'), ''))
             else:
@@ -614,7 +696,7 @@ def c13_run(p):
         if len(h.core.written) != nw:
             out.append(fail(p, 'not a single byte may be written to the transport', 0, len(h.core.written) - nw))
         if os.listdir(tmp):
-            out.append(fail(p, 'no local file may be created', [], os.listdir(tmp)))
+            out.append(fail(p, 'no local file (or directory) may be created', [], os.listdir(tmp)))
     finally:
         import shutil
         shutil.rmtree(tmp, ignore_errors=True)
